@@ -134,11 +134,6 @@ fn shuffle_case<const N: usize>() {
     // could not be settled offline (DESIGN section 8); only the unambiguous lengths are asserted.
     if N < 5 || N % 4 == 0 || N % 4 == 3 {
         assert!(s4[i] == w4[i]);
-    } else {
-        // still: a permutation of the input positions that does not depend on the values
-        let j: usize = kani::any();
-        kani::assume(j < N);
-        kani::cover!(s4[i] == data[j]);
     }
     core::mem::forget(s2);
     core::mem::forget(s4);
